@@ -1,0 +1,14 @@
+//go:build verif
+// +build verif
+
+package isaacdatabase
+
+// The cleanup daemon of TempPool ticks every 33 minutes; the verification harness calls the cleanup steps directly.
+
+func (db *TempPool) VerifCleanProposals() (int, error) { return db.cleanProposals() }
+
+func (db *TempPool) VerifCleanBallots() (int, error) { return db.cleanBallots() }
+
+func (db *TempPool) VerifCleanRemovedNewOperations() (int, error) {
+	return db.cleanRemovedNewOperations()
+}
